@@ -427,6 +427,9 @@ func runC04(cfg *vc.Config, rep *vc.Report) {
 			if strings.Contains(st.Text, other) {
 				rep.Violate("other-ledger-named:"+call.Method, st.Text, i, call)
 			}
+			if msg := volumeFunctionMismatch(st.Text, pit); msg != "" {
+				rep.Violate("volume-function-mismatch:"+call.Method, msg+": "+st.Text, i, call)
+			}
 			if bad := unscoped(st.Text, name); len(bad) > 0 {
 				rep.Violate("unscoped:"+call.Method+":"+strings.Join(uniqStrings(bad), ","), "not confined to ledger '"+name+"': "+st.Text, i, call)
 			}
@@ -453,3 +456,54 @@ func uniqStrings(xs []string) []string {
 }
 
 var _ = fakesql.Open
+
+// volumeFunctionMismatch: the Go side wires schema functions to result columns. A function call `get_*(...)` followed by
+// an alias (`volumes`, `effective_volumes`, `as post_commit_effective_volumes` ...) must be of the same kind as its alias:
+// "effective" in the one iff in the other; and the expand flags of the request must each be answered by a call of that kind.
+func volumeFunctionMismatch(sql string, f ledgerstore.PITFilterWithVolumes) string {
+	toks := Lex(sql)
+	sawEff, sawPlain := false, false
+	for i := 0; i < len(toks); i++ {
+		t := toks[i]
+		if t.Kind != "ident" || !strings.HasPrefix(t.Text, "get_") || !strings.Contains(t.Text, "volumes") || i+1 >= len(toks) || toks[i+1].Text != "(" {
+			continue
+		}
+		depth, j := 0, i+1
+		for ; j < len(toks); j++ {
+			if toks[j].Text == "(" {
+				depth++
+			} else if toks[j].Text == ")" {
+				depth--
+				if depth == 0 {
+					break
+				}
+			}
+		}
+		j++
+		if j < len(toks) && toks[j].Kind == "ident" && toks[j].Text == "as" {
+			j++
+		}
+		if j >= len(toks) || (toks[j].Kind != "ident" && toks[j].Kind != "qident") {
+			continue
+		}
+		alias := unq(toks[j].Text)
+		fnEff, alEff := strings.Contains(t.Text, "effective"), strings.Contains(alias, "effective")
+		if fnEff != alEff {
+			return fmt.Sprintf("function %s feeds the result column %s", t.Text, alias)
+		}
+		if fnEff {
+			sawEff = true
+		} else {
+			sawPlain = true
+		}
+	}
+	if strings.Contains(sql, "get_") && strings.Contains(sql, "volumes") {
+		if f.ExpandEffectiveVolumes && !sawEff && (strings.Contains(sql, "effective_volumes")) {
+			return "effective volumes requested but no effective-volumes function is called"
+		}
+		if f.ExpandVolumes && !sawPlain && strings.Contains(sql, " volumes") {
+			return "volumes requested but no volumes function is called"
+		}
+	}
+	return ""
+}
